@@ -1,5 +1,6 @@
 import Secp.Proofs.Ecdsa
 import Secp.Props.C03
+import Secp.Proofs.Slices
 /-
   Props/C07 — public-key recovery returns the signer's key in every signature form.
   Model: `recoverM`, `exportM`, `exportCompactM`, `parseCompactM`.  Spec: `ecdsaRecover` (SEC1 §4.1.6).
@@ -39,5 +40,14 @@ theorem parse_exportCompact (r s v : Nat) (comp : Bool) (hr0 : 0 < r) (hr : r < 
 theorem recover_iff_unconditional (h : Bytes) (r s v : Nat) (hr0 : 0 < r) (hr : r < N) (hs : s < N) (hv : v < 4) :
     (match recoverM h r s v with | .ok q => some q | .error _ => none) = ecdsaRecover h r s v :=
   recover_iff Secp.Props.C03.pointSpec h r s v hr0 hr hs hv
+
+
+/-- Limb level of this property's own functions: the REGENERATED sliced field programs (tools/gotr pass T2s,
+    `Secp.Gen.Slices`) of `RecoverPublicKey` (r+n handling, DecompressY, the normalisations before the point is built, infinity test, ToAffine) pass the abstract interpreter on every path — no magnitude overflow, every
+    comparison / parity test / serialisation reads a normalised value, every callee's precondition holds,
+    every returned key or point is normalised.  Together with C05 (kernels) and C16 (`absPath_sound`,
+    `contracts_justified`) this is what makes the value-level model above faithful to the limb code. -/
+theorem recover_field_arithmetic_exact :
+    Secp.Proofs.Slices.entriesOK ["github.com/ModChain/secp256k1.Signature.RecoverPublicKey", "github.com/ModChain/secp256k1.RecoverCompact", "github.com/ModChain/secp256k1.Signature.BruteforceRecoveryCode", "github.com/ModChain/secp256k1.modNScalarToField"] = true := by decide +kernel
 
 end Secp.Props.C07
